@@ -187,8 +187,8 @@ class _ExprInliner(ast.NodeTransformer):
     expression (conditions included).  Arguments must be side-effect-free expressions (names, attributes, constants, subscripts of
     those) because substitution may duplicate or drop them."""
 
-    def __init__(self, prog, owner, local_defs, depth):
-        self.prog, self.owner, self.local_defs, self.depth = prog, owner, local_defs, depth
+    def __init__(self, prog, owner, local_defs, depth, skip_names=()):
+        self.prog, self.owner, self.local_defs, self.depth, self.skip_names = prog, owner, local_defs, depth, skip_names
 
     def visit_FunctionDef(self, n):
         return n
@@ -204,6 +204,8 @@ class _ExprInliner(ast.NodeTransformer):
             return n
         callee, skip = r
         cnode = callee.node if isinstance(callee, FuncInfo) else callee
+        if cnode.name in self.skip_names:
+            return n
         # only helpers of the same module: calls into other modules are the named operations rules are written against
         if isinstance(callee, FuncInfo) and callee.module is not self.owner.module:
             return n
@@ -213,8 +215,11 @@ class _ExprInliner(ast.NodeTransformer):
             return n
         body = [ast.Return(value=ret_expr)]
         # iterator factories (`return (x for ...)`) stay calls: rules name regions and sources by the iterator
-        if any(isinstance(x, (ast.GeneratorExp, ast.ListComp, ast.SetComp, ast.DictComp, ast.Lambda, ast.Await, ast.Yield, ast.YieldFrom, ast.NamedExpr))
-               for x in ast.walk(body[0].value)):
+        rv_ = body[0].value
+        if isinstance(rv_, (ast.GeneratorExp, ast.ListComp, ast.SetComp, ast.DictComp, ast.Lambda)) or (
+                isinstance(rv_, ast.Call) and dotted(rv_.func) in ("list", "tuple", "iter", "sorted", "reversed", "set", "dict") and rv_.args
+                and isinstance(rv_.args[0], (ast.GeneratorExp, ast.ListComp))) or any(
+                isinstance(x, (ast.Await, ast.Yield, ast.YieldFrom, ast.NamedExpr)) for x in ast.walk(rv_)):
             return n
         a = cnode.args
         if a.vararg or a.kwarg or a.kwonlyargs or any(isinstance(x, ast.Starred) for x in n.args) or any(k.arg is None for k in n.keywords):
@@ -237,7 +242,7 @@ class _ExprInliner(ast.NodeTransformer):
         expr = copy.deepcopy(body[0].value)
         new = _Subst(mapping, {}).visit(expr)
         sub_owner = callee if isinstance(callee, FuncInfo) else self.owner
-        new = _ExprInliner(self.prog, sub_owner, {}, self.depth - 1).visit(new)
+        new = _ExprInliner(self.prog, sub_owner, {}, self.depth - 1, self.skip_names).visit(new)
         return ast.copy_location(new, n) if hasattr(new, "lineno") or True else new
 
 
@@ -322,13 +327,14 @@ def _pure_arg(v):
     return False
 
 
-def expand(prog, f, depth=2, local_only=False):
+def expand(prog, f, depth=2, local_only=False, skip_names=()):
     # local_only: inline only helpers of f's own module (calls into other modules stay as named operations)
     counter = [0]
     root = desugar(f.node)
 
     def walk_block(stmts, owner, level, local_defs):
         out = []
+        stmts = _hoist_helper_calls(prog, owner, stmts, local_defs, counter, local_only, f, skip_names) if level < depth else stmts
         for st in stmts:
             if isinstance(st, (ast.FunctionDef, ast.AsyncFunctionDef)):
                 local_defs = dict(local_defs)
@@ -353,7 +359,7 @@ def expand(prog, f, depth=2, local_only=False):
                 if r is not None:
                     callee, skip = r
                     cnode = callee.node if isinstance(callee, FuncInfo) else callee
-                    if cnode is not f.node and not any(isinstance(x, (ast.Yield, ast.YieldFrom)) for x in ast.walk(cnode)) \
+                    if cnode is not f.node and cnode.name not in skip_names and not any(isinstance(x, (ast.Yield, ast.YieldFrom)) for x in ast.walk(cnode)) \
                             and not (local_only and isinstance(callee, FuncInfo) and callee.module is not f.module):
                         self_expr = copy.deepcopy(call.func.value) if isinstance(call.func, ast.Attribute) else None
                         body = _callee_body(prog, callee, skip, call, counter, self_expr)
@@ -400,18 +406,118 @@ def expand(prog, f, depth=2, local_only=False):
     local_defs = {n.name: n for n in ast.walk(root) if isinstance(n, ast.FunctionDef) and n is not root}
     new_body = []
     for st in root.body:
-        new_body.append(_inline_stmt_exprs(prog, f, st, local_defs, depth))
+        new_body.append(_inline_stmt_exprs(prog, f, st, local_defs, depth, skip_names))
     root.body = new_body
-    root = desugar(root) if False else root
+    _inline_captures(root)
     ast.fix_missing_locations(root)
     return root
 
 
-def _inline_stmt_exprs(prog, f, st, local_defs, depth):
+def _hoist_helper_calls(prog, owner, stmts, local_defs, counter, local_only, top, skip_names=()):
+    """A call of a multi-statement repository helper nested inside the expression of a simple statement
+    (`return str(cls._to_units(cls._normalized(x)))`) is given a name of its own first (`t = cls._normalized(x)`), so that the
+    statement-level inliner can expand it.  Only calls in strictly-evaluated positions are moved."""
+    out = []
+    for st in stmts:
+        if not isinstance(st, (ast.Return, ast.Assign, ast.Expr, ast.AugAssign, ast.AnnAssign)) or getattr(st, "value", None) is None:
+            out.append(st)
+            continue
+        pre = []
+
+        def wanted(c):
+            r = resolve_callee(prog, owner, c, local_defs)
+            if r is None:
+                return False
+            callee, _skip = r
+            cnode = callee.node if isinstance(callee, FuncInfo) else callee
+            if cnode is top.node or cnode.name in skip_names or any(isinstance(x, (ast.Yield, ast.YieldFrom)) for x in ast.walk(cnode)):
+                return False
+            if local_only and isinstance(callee, FuncInfo) and callee.module is not top.module:
+                return False
+            if isinstance(callee, FuncInfo) and callee.module is not owner.module:
+                return False  # cross-module calls nested in expressions stay named operations
+            body = [s_ for s_ in cnode.body if not (isinstance(s_, ast.Expr) and isinstance(s_.value, ast.Constant) and isinstance(s_.value.value, str))]
+            if _as_expr(body) is not None:
+                return False  # the expression inliner takes care of it
+            b2 = _normalise_tail([s_ for s_ in desugar(cnode).body if not (isinstance(s_, ast.Expr) and isinstance(s_.value, ast.Constant))])
+            return _return_simple(b2)
+
+        def strict(e, top_level):
+            """rewrite e in place; returns the (possibly replaced) node"""
+            if isinstance(e, ast.Call):
+                e.args = [strict(a, False) for a in e.args]
+                for k in e.keywords:
+                    k.value = strict(k.value, False)
+                if isinstance(e.func, ast.Attribute):
+                    e.func.value = strict(e.func.value, False)
+                if not top_level and wanted(e):
+                    tmp = "hoist$%d" % counter[0]
+                    counter[0] += 1
+                    pre.append(_loc(ast.Assign(targets=[ast.Name(id=tmp, ctx=ast.Store())], value=e, type_comment=None), st))
+                    return _loc(ast.Name(id=tmp, ctx=ast.Load()), e)
+                return e
+            if isinstance(e, ast.BinOp):
+                e.left, e.right = strict(e.left, False), strict(e.right, False)
+            elif isinstance(e, ast.UnaryOp):
+                e.operand = strict(e.operand, False)
+            elif isinstance(e, (ast.Attribute, ast.Starred)):
+                e.value = strict(e.value, False)
+            elif isinstance(e, ast.Subscript):
+                e.value = strict(e.value, False)
+            elif isinstance(e, (ast.Tuple, ast.List)):
+                e.elts = [strict(x, False) for x in e.elts]
+            elif isinstance(e, ast.Compare):
+                e.left = strict(e.left, False)
+            elif isinstance(e, ast.BoolOp):
+                e.values[0] = strict(e.values[0], False)
+            elif isinstance(e, ast.IfExp):
+                e.test = strict(e.test, False)
+            return e
+
+        st.value = strict(st.value, isinstance(st, (ast.Return, ast.Expr)) or (
+            isinstance(st, ast.Assign) and len(st.targets) == 1 and isinstance(st.targets[0], (ast.Name, ast.Attribute, ast.Tuple))))
+        out.extend(pre)
+        out.append(st)
+    return out
+
+
+def _inline_captures(root):
+    """Closures that read a variable of the enclosing function bound once to a plain attribute chain (`to_xml =
+    self._simple_type.to_xml` hoisted out of the closure) read the chain itself instead."""
+    from .paths import aliases
+
+    outer = aliases(root)
+    if not outer:
+        return
+    for fn in [n for n in ast.walk(root) if isinstance(n, (ast.FunctionDef, ast.Lambda)) and n is not root]:
+        bound = {a.arg for a in fn.args.args + fn.args.posonlyargs + fn.args.kwonlyargs}
+        body = fn.body if isinstance(fn.body, list) else [fn.body]
+        for b in body:
+            for x in ast.walk(b):
+                if isinstance(x, ast.Name) and isinstance(x.ctx, ast.Store):
+                    bound.add(x.id)
+        # only names assigned outside this closure
+        inner_assigned = {t.id for b in body for x in ast.walk(b) if isinstance(x, ast.Assign) for t in x.targets if isinstance(t, ast.Name)}
+        m = {k: v for k, v in outer.items() if k not in bound and k not in inner_assigned}
+        if not m:
+            continue
+
+        class Sub(ast.NodeTransformer):
+            def visit_Name(self, n):
+                if n.id in m and isinstance(n.ctx, ast.Load):
+                    return self.visit(copy.deepcopy(m[n.id]))
+                return n
+        if isinstance(fn.body, list):
+            fn.body = [Sub().visit(b) for b in fn.body]
+        else:
+            fn.body = Sub().visit(fn.body)
+
+
+def _inline_stmt_exprs(prog, f, st, local_defs, depth, skip_names=()):
     """Apply _ExprInliner to the expressions of a statement (recursing into compound statements, not into nested defs)."""
-    inl = _ExprInliner(prog, f, local_defs, depth)
+    inl = _ExprInliner(prog, f, local_defs, depth, skip_names)
     if isinstance(st, (ast.FunctionDef, ast.AsyncFunctionDef)):
-        st.body = [_inline_stmt_exprs(prog, f, x, local_defs, depth) for x in st.body]
+        st.body = [_inline_stmt_exprs(prog, f, x, local_defs, depth, skip_names) for x in st.body]
         return st
     for fld, val in list(ast.iter_fields(st)):
         if isinstance(val, ast.expr):
@@ -420,11 +526,11 @@ def _inline_stmt_exprs(prog, f, st, local_defs, depth):
             newl = []
             for x in val:
                 if isinstance(x, ast.stmt):
-                    newl.append(_inline_stmt_exprs(prog, f, x, local_defs, depth))
+                    newl.append(_inline_stmt_exprs(prog, f, x, local_defs, depth, skip_names))
                 elif isinstance(x, ast.expr):
                     newl.append(inl.visit(x))
                 elif isinstance(x, ast.excepthandler):
-                    x.body = [_inline_stmt_exprs(prog, f, y, local_defs, depth) for y in x.body]
+                    x.body = [_inline_stmt_exprs(prog, f, y, local_defs, depth, skip_names) for y in x.body]
                     newl.append(x)
                 elif isinstance(x, ast.withitem):
                     x.context_expr = inl.visit(x.context_expr)
